@@ -179,6 +179,10 @@ def _truth(node: ast.AST, env: Dict[str, object]) -> bool:
             return a == b
         if isinstance(op, ast.NotEq):
             return a != b
+        if isinstance(a, int) and isinstance(b, int) and isinstance(op, (ast.Lt, ast.LtE, ast.Gt, ast.GtE)):
+            return a < b if isinstance(op, ast.Lt) else a <= b if isinstance(op, ast.LtE) else a > b if isinstance(op, ast.Gt) else a >= b
+        if isinstance(op, (ast.Is, ast.IsNot)):
+            return (a is b) == isinstance(op, ast.Is)
         raise AnalysisError(f"segment machine: comparison `{short(node)}` not supported")
     return bool(_value(node, env))
 
@@ -186,12 +190,13 @@ def _truth(node: ast.AST, env: Dict[str, object]) -> bool:
 def segment_machine(prog: Program) -> RuleResult:
     res = RuleResult(
         "SEGMENT-MACHINE",
-        "the scanning loop of subseq_segment_dist is a finite-state machine over (inside a lost run?, parent bit, "
-        "child bit); its transition table, its initial state and its final correction, extracted from the syntax "
-        "tree over all Boolean valuations, are those of a counter of maximal runs of parent elements missing from "
-        "the child: child bit without parent bit -> -1; a missing parent element opens a run (counted once) unless "
-        "one is open; a kept element closes it; with ends excluded the scan starts 'inside a run' (a leading run is "
-        "never counted) and a run still open at the end is un-counted",
+        "the scanning loop of subseq_segment_dist is a finite-state transducer over (parent bit, child bit) pairs; "
+        "its state variables, initialisation, loop body and final correction are extracted from the syntax tree and "
+        "the PRODUCT of that transducer with the reference run counter (child bit without parent bit -> -1; a "
+        "missing parent element opens a run, counted once; a kept element closes it; with ends excluded a leading "
+        "run and a run still open after the parent's top bit are not counted) is explored exhaustively: in every "
+        "reachable product state both agree on returning -1 and on the final answer (the counters may differ by a "
+        "bounded amount in between)",
     )
     mod = prog.module(SUBSEQ)
     fn = prog.func(SUBSEQ, "subseq_segment_dist")
@@ -202,33 +207,9 @@ def segment_machine(prog: Program) -> RuleResult:
     p_child, p_parent, p_edges = (func_params(fn) + [None, None, None])[:3]
     pos = fn.body.index(loop)
     pre, post = fn.body[:pos], fn.body[pos + 1:]
-    # names: the run flag and the counter are the variables assigned before the loop
     state_names = [st.targets[0].id for st in pre if isinstance(st, ast.Assign) and isinstance(st.targets[0], ast.Name)]
-    if len(state_names) != 2:
-        raise AnalysisError(f"subseq_segment_dist: expected two state variables before the loop, found {state_names}")
-    # which one is Boolean? evaluate the initialisation for edges = True
-    bad: List[str] = []
-    for edges in (True, False):
-        env: Dict[str, object] = {p_edges: edges}
-        try:
-            _exec([st for st in pre if isinstance(st, ast.Assign)], env)
-        except _Abort:
-            raise AnalysisError("subseq_segment_dist: initialisation returns")
-        flags = [n for n in state_names if isinstance(env[n], bool)]
-        counters = [n for n in state_names if isinstance(env[n], int) and not isinstance(env[n], bool)]
-        if len(flags) != 1 or len(counters) != 1:
-            raise AnalysisError("subseq_segment_dist: run flag / counter not recognised")
-        flag, counter = flags[0], counters[0]
-        if env[flag] is not (not edges):
-            bad.append(f"with edges={edges} the scan starts with {flag}={env[flag]} (a leading lost run is {'not ' if edges else ''}to be counted)")
-        if env[counter] != 0:
-            bad.append(f"the counter starts at {env[counter]}")
-    construct = f"{SUBSEQ}:subseq_segment_dist/initial-state"
-    if bad:
-        res.fail(construct, "; ".join(bad), mod, pre[0])
-    else:
-        res.ok(construct, f"{flag} = not edges, {counter} = 0")
-    # transition table
+    if not state_names:
+        raise AnalysisError("subseq_segment_dist: no state variable is initialised before the loop")
     bits = []
     for st in loop.body:
         if isinstance(st, ast.Assign) and isinstance(st.value, ast.BinOp) and isinstance(st.value.op, ast.BitAnd):
@@ -236,48 +217,101 @@ def segment_machine(prog: Program) -> RuleResult:
     names = {mask: var for var, mask in bits}
     if set(names) != {p_child, p_parent}:
         raise AnalysisError("subseq_segment_dist: bit extraction `x = mask & 1` for child and parent not found")
-    spec = {}
-    for in_run, bp, bc in itertools.product((False, True), repeat=3):
+    # an explicit position variable may only be compared with 0 / 1 (it is abstracted to 0, 1, 'more')
+    idx_var = dotted(loop.target) if isinstance(loop, ast.For) and isinstance(loop.target, ast.Name) and loop.target.id != "_" else None
+    if idx_var:
+        for n in ast.walk(loop):
+            if isinstance(n, ast.Name) and n.id == idx_var and isinstance(n.ctx, ast.Load):
+                ok_use = False
+                for c in ast.walk(loop):
+                    if isinstance(c, ast.Compare) and len(c.ops) == 1 and any(x is n for x in (c.left, c.comparators[0])):
+                        other = c.comparators[0] if c.left is n else c.left
+                        if isinstance(other, ast.Constant) and other.value in (0, 1):
+                            ok_use = True
+                if not ok_use:
+                    raise AnalysisError(f"subseq_segment_dist: the position `{idx_var}` is used otherwise than in a comparison with 0 or 1")
+    BASE = 10
+
+    def spec_step(in_run: bool, bp: int, bc: int):
         if bc and not bp:
-            spec[(in_run, bp, bc)] = ("return", -1)
-        elif bp and not bc:
-            spec[(in_run, bp, bc)] = (True, 0 if in_run else 1)
-        elif bp and bc:
-            spec[(in_run, bp, bc)] = (False, 0)
+            return "abort", in_run, 0
+        if bp and not bc:
+            return None, True, 0 if in_run else 1
+        if bp and bc:
+            return None, False, 0
+        return None, in_run, 0
+
+    for edges in (True, False):
+        construct = f"{SUBSEQ}:subseq_segment_dist/equivalent[edges={edges}]"
+        env0: Dict[str, object] = {p_edges: edges}
+        try:
+            _exec([st for st in pre if isinstance(st, ast.Assign)], env0)
+        except _Abort:
+            raise AnalysisError("subseq_segment_dist: initialisation returns")
+        bools = [n for n in state_names if isinstance(env0.get(n), bool)]
+        ints = [n for n in state_names if isinstance(env0.get(n), int) and not isinstance(env0.get(n), bool)]
+        if len(bools) + len(ints) != len(state_names):
+            raise AnalysisError("subseq_segment_dist: a state variable is neither Boolean nor integer")
+        start = (tuple(env0[b] for b in bools), tuple(env0[i] for i in ints), 0, (not edges), False)
+        seen = {start: ()}
+        frontier = [start]
+        problem = None
+        while frontier and problem is None:
+            cur = frontier.pop()
+            bvals, idiffs, step_no, s_run, nonempty = cur
+            path = seen[cur]
+            for bp, bc in ((0, 0), (1, 0), (1, 1), (0, 1)):
+                env = {p_edges: edges, f"bit:{p_child}": bc, f"bit:{p_parent}": bp}
+                env.update(dict(zip(bools, bvals)))
+                env.update({n: BASE + d for n, d in zip(ints, idiffs)})
+                if idx_var:
+                    env[idx_var] = step_no
+                s_out, s_run2, s_inc = spec_step(s_run, bp, bc)
+                word = path + ((bp, bc),)
+                try:
+                    _exec(loop.body, env)
+                    got_abort = None
+                except _Abort as stop:
+                    got_abort = ("abort", stop.value)
+                shown = " ".join(f"(parent {a}, child {b})" for a, b in word)
+                if s_out == "abort":
+                    if got_abort is None or got_abort[1] != -1:
+                        problem = f"after the bit pairs {shown} (least significant first) the child has an element the parent lacks, but the scan {'goes on' if got_abort is None else f'returns {got_abort[1]}'} instead of returning -1"
+                        break
+                    continue
+                if got_abort is not None:
+                    problem = f"after the bit pairs {shown} the scan returns {got_abort[1]} although the child is still contained in the parent"
+                    break
+                nb = tuple(env[b] for b in bools)
+                nd = tuple(env[i] - (BASE + s_inc) for i in ints)
+                if any(abs(d) > 4 for d in nd):
+                    raise AnalysisError("subseq_segment_dist: an integer state variable drifts away from the run count (machine not understood)")
+                nxt = (nb, nd, min(step_no + 1, 2), s_run2, nonempty or bool(bc))
+                if bp and nxt[4]:  # the parent's top bit is a set bit: the scan may end here (non-empty children only)
+                    fenv = {p_edges: edges}
+                    fenv.update(dict(zip(bools, nb)))
+                    fenv.update({n: BASE + d for n, d in zip(ints, nd)})
+                    try:
+                        _exec(post, fenv)
+                        got = None
+                    except _Abort as stop:
+                        got = stop.value
+                    want = BASE - (1 if (s_run2 and not edges) else 0)
+                    if got != want:
+                        delta = (got - want) if isinstance(got, int) else None
+                        problem = (
+                            f"for a parent/child whose bit pairs are {shown} (least significant first) the answer is "
+                            + (f"{delta:+d} off the number of lost runs" if delta is not None else f"`{got}`")
+                            + (" with the end runs ignored" if not edges else "")
+                        )
+                        break
+                if nxt not in seen:
+                    seen[nxt] = word
+                    frontier.append(nxt)
+        if problem:
+            res.fail(construct, problem, mod, loop)
         else:
-            spec[(in_run, bp, bc)] = (in_run, 0)
-    mism = []
-    for (in_run, bp, bc), want in spec.items():
-        env = {p_edges: True, flag: in_run, counter: 0, f"bit:{p_child}": int(bc), f"bit:{p_parent}": int(bp)}
-        try:
-            _exec(loop.body, env)
-            got = (env[flag], env[counter])
-        except _Abort as stop:
-            got = ("return", stop.value)
-        if got != want:
-            mism.append(f"(in a run: {in_run}, parent bit {int(bp)}, child bit {int(bc)}) -> {got}, expected {want}")
-    construct = f"{SUBSEQ}:subseq_segment_dist/transitions"
-    if mism:
-        res.fail(construct, "the loop body is not the run counter: " + "; ".join(mism), mod, loop)
-    else:
-        res.ok(construct, "8 transitions = run counter (open on a missing parent element, close on a kept one, -1 on a foreign child bit)")
-    # final correction
-    construct = f"{SUBSEQ}:subseq_segment_dist/final"
-    bad = []
-    for edges, in_run in itertools.product((True, False), repeat=2):
-        env = {p_edges: edges, flag: in_run, counter: 5}
-        try:
-            _exec(post, env)
-            got = None
-        except _Abort as stop:
-            got = stop.value
-        want = 5 - (1 if (in_run and not edges) else 0)
-        if got != want:
-            bad.append(f"edges={edges}, run open at the end={in_run}: returns counter{got - 5:+d}" if isinstance(got, int) else f"edges={edges}, open={in_run}: returns {got}")
-    if bad:
-        res.fail(construct, "; ".join(bad) + " (a run touching the high end is un-counted exactly when ends are excluded)", mod, post[0] if post else loop)
-    else:
-        res.ok(construct, "a run still open at the end is un-counted exactly when ends are excluded")
+            res.ok(construct, f"{len(seen)} product states explored; same -1 verdicts and same final answers as the run counter")
     # scan length: all bits of the parent
     construct = f"{SUBSEQ}:subseq_segment_dist/scan-length"
     it = loop.iter if isinstance(loop, ast.For) else None
